@@ -11,7 +11,7 @@ use tracing_subscriber::{
     Registry, Subscribe,
 };
 
-/// A filter whose verdicts are a symbolic table indexed by metadata kind (event / span / hint): 0 reject, 1 accept.
+/// A filter whose verdicts are a symbolic table indexed by the callsite (event 'e*' / span 's*' / enabled!-probe 'h*' metadata): 0 reject, 1 accept.
 pub struct SymFilter {
     pub ev: AtomicU8,
     pub sp: AtomicU8,
@@ -28,9 +28,9 @@ impl SymFilter {
                     asked: core::sync::atomic::AtomicUsize::new(0) }
     }
     fn verdict(&self, m: &Metadata<'_>) -> bool {
-        if m.is_event() { self.ev.load(Ordering::Relaxed) != 0 }
-        else if m.is_span() { self.sp.load(Ordering::Relaxed) != 0 }
-        else { self.hint.load(Ordering::Relaxed) != 0 }
+        if m.name().as_bytes()[0] == b'h' { self.hint.load(Ordering::Relaxed) != 0 }
+        else if m.is_event() { self.ev.load(Ordering::Relaxed) != 0 }
+        else { self.sp.load(Ordering::Relaxed) != 0 }
     }
     /// symbolic, self-consistent configuration; returns (ev, sp, hint verdicts)
     pub fn havoc(&self) -> (bool, bool, bool) {
@@ -57,9 +57,9 @@ impl<C> Filter<C> for &'static SymFilter {
         self.verdict(m)
     }
     fn callsite_enabled(&self, m: &'static Metadata<'static>) -> Interest {
-        if m.is_event() { int(self.interest_ev.load(Ordering::Relaxed)) }
-        else if m.is_span() { int(self.interest_sp.load(Ordering::Relaxed)) }
-        else { Interest::sometimes() }
+        if m.name().as_bytes()[0] == b'h' { Interest::sometimes() }
+        else if m.is_event() { int(self.interest_ev.load(Ordering::Relaxed)) }
+        else { int(self.interest_sp.load(Ordering::Relaxed)) }
     }
 }
 pub static F1: SymFilter = SymFilter::new();
@@ -204,45 +204,54 @@ fn c07_k2_probe_then_event_sometimes() {
     kani::cover!(p1 && !e1);
 }
 
-/// a span's whole life (new, enter, exit, close) is delivered exactly to the layers whose filter accepted it;
-/// a following event is judged on its own
-#[kani::proof]
-#[kani::unwind(3)]
-#[kani::stub(std::rt::thread_cleanup, noop)]
-#[kani::stub(core::fmt::write, fmt_write_stub)]
-#[kani::stub(std::collections::HashMap::clear, hm_clear)]
-fn c07_k2_span_then_event() {
-    fstack!(st);
-    let (e1, s1, _) = F1.havoc();
-    let (e2, s2, _) = F2.havoc();
-    let sm = sp_meta(3);
-    let cs = st.register_callsite(sm);
-    let mut made = false;
-    if !cs.is_never() && (cs.is_always() || st.enabled(sm)) {
-        let vs = sm.fields().value_set(&[]);
-        let id = st.new_span(&Attributes::new_root(sm, &vs));
-        assert!(f::bits() == 0);
-        st.enter(&id);
-        st.exit(&id);
-        assert!(st.try_close(id));
-        made = true;
-    }
-    let w1 = made && s1;
-    let w2 = made && s2;
-    assert!(ld(&L1.new_span) == w1 as usize && ld(&L1.enter) == w1 as usize && ld(&L1.exit) == w1 as usize && ld(&L1.close) == w1 as usize);
-    assert!(ld(&L2.new_span) == w2 as usize && ld(&L2.enter) == w2 as usize && ld(&L2.exit) == w2 as usize && ld(&L2.close) == w2 as usize);
-    // if any layer accepts, the span must have been made
-    assert!(made || !(s1 || s2));
-    assert!(f::bits() == 0);
-    let m = ev_meta(3);
-    let ce = st.register_callsite(m);
-    emit_event(st, m, &ce);
-    assert!(ld(&L1.event) == e1 as usize);
-    assert!(ld(&L2.event) == e2 as usize);
-    assert!(f::bits() == 0);
-    kani::cover!(s1 && !s2 && !e1 && e2);
-    kani::cover!(!s1 && !s2);
+macro_rules! span_then_event {
+    ($name:ident, $s1:expr, $s2:expr) => {
+        /// a span's whole life (new, enter, exit, close) is delivered exactly to the layers whose filter
+        /// accepted it (span verdicts fixed by the case split), a following event is judged on its own
+        #[kani::proof]
+        #[kani::unwind(3)]
+        #[kani::stub(std::rt::thread_cleanup, noop)]
+        #[kani::stub(core::fmt::write, fmt_write_stub)]
+        #[kani::stub(std::collections::HashMap::clear, hm_clear)]
+        fn $name() {
+            fstack!(st);
+            let (s1, s2): (bool, bool) = ($s1, $s2);
+            let (e1, e2): (bool, bool) = (kani::any(), kani::any());
+            F1.sp.store(s1 as u8, Ordering::Relaxed); F1.ev.store(e1 as u8, Ordering::Relaxed);
+            F2.sp.store(s2 as u8, Ordering::Relaxed); F2.ev.store(e2 as u8, Ordering::Relaxed);
+            let sm = sp_meta(3);
+            let cs = st.register_callsite(sm);
+            assert!(cs.is_sometimes());
+            let en = st.enabled(sm);
+            // if any layer accepts, the span is made (the converse is the documented false-positive latitude of
+            // `Registry::enabled` with fewer than 64 filters: the span may be made and delivered to nobody)
+            assert!(en || !(s1 || s2));
+            if en {
+                let vs = sm.fields().value_set(&[]);
+                let id = st.new_span(&Attributes::new_root(sm, &vs));
+                assert!(f::bits() == 0);
+                st.enter(&id);
+                st.exit(&id);
+                assert!(st.try_close(id));
+            }
+            assert!(ld(&L1.new_span) == s1 as usize && ld(&L1.enter) == s1 as usize && ld(&L1.exit) == s1 as usize && ld(&L1.close) == s1 as usize);
+            assert!(ld(&L2.new_span) == s2 as usize && ld(&L2.enter) == s2 as usize && ld(&L2.exit) == s2 as usize && ld(&L2.close) == s2 as usize);
+            assert!(f::bits() == 0);
+            let m = ev_meta(3);
+            let ce = st.register_callsite(m);
+            emit_event(st, m, &ce);
+            assert!(ld(&L1.event) == e1 as usize);
+            assert!(ld(&L2.event) == e2 as usize);
+            assert!(f::bits() == 0);
+            kani::cover!(e1 && !e2);
+            kani::cover!(!e1 && !e2);
+        }
+    };
 }
+span_then_event!(c07_k2_span_tt_then_event, true, true);
+span_then_event!(c07_k2_span_tf_then_event, true, false);
+span_then_event!(c07_k2_span_ft_then_event, false, true);
+span_then_event!(c07_k2_span_ff_then_event, false, false);
 
 #[kani::proof]
 #[kani::unwind(3)]
